@@ -432,12 +432,12 @@ PROPS = {
         "assumptions": ["events carry a non-nil tag list (Event.Valid); invalid UTF-8 cannot pass the gate", "ids/pubkeys/sigs in lower-case hex for the monitors (upper case is compared with the model only)"],
     },
     "C12": {
-        "lean_modules": ["MocProps.C12", "MocProps.C12Out", "MocProps.C12Loop"], "theorem_files": ["MocProps/C12.lean", "MocProps/C12Out.lean", "MocProps/C12Loop.lean"],
+        "lean_modules": ["MocProps.C12", "MocProps.C12E2E", "MocProps.C12Out", "MocProps.C12Loop"], "theorem_files": ["MocProps/C12.lean", "MocProps/C12E2E.lean", "MocProps/C12Out.lean", "MocProps/C12Loop.lean"],
         "gen_groups": ["Gate", "Serialize", "Valid", "Codec", "Consts", "Sites"], "harness_prop": "ws", "driver_prop": "ws",
         "monitors": ["gate"],
         "n_quick": 1200, "n_thorough": 12000, "thorough_seeds": 3,
         "rule": WS_RULE,
-        "level_text": "Partial by nature (transport): on the model the gate forwards a frame, unchanged, exactly when it is a text frame holding valid UTF-8 JSON that parses to a valid client "
+        "level_text": "End to end on the model (C12E2E.gate_end_to_end): with the model's own parser, validator and verifier plugged in, a text frame reaches the handler as m exactly when it parses to m (C10's decoder), m meets the NIP-01 constraints (C11's validClientMsg_iff) and - for an EVENT - the id is the SHA-256 of the serialization and the signature passes (C01's verifyFull_true_iff: Lean SHA-256, Lean BIP-340); every other frame gets exactly one NOTICE (gate_otherwise_one_notice); the ws stream runs this very function against the relay over a real WebSocket. Partial by nature (transport): on the model the gate forwards a frame, unchanged, exactly when it is a text frame holding valid UTF-8 JSON that parses to a valid client "
                       "message which, if an EVENT, verifies (gate_forwards_iff); every other frame yields exactly one NOTICE and nothing else (gate_rejects_otherwise); over a session the handler "
                       "receives exactly the acceptable frames, once each, in order, and forwarded + rejected = frames sent (session_inbound, session_order). Tests and NOTICE texts are regenerated "
                       "from relay.go. Outbound: for every server message whose integers fit the wire types, the decoder of its type applied to its encoding yields the same wire content "
